@@ -725,10 +725,14 @@ def part_g(ctx, rng, n):
                          ("get2", 0, False, (lambda key: t.has_key(key)) if setlike else (lambda key: t.get(key))),
                          ("minKey", 2, False, lambda key: t.minKey(key)),
                          ("maxKey", 2, False, lambda key: t.maxKey(key))]
-                if present:         # writes that change nothing the model's tree would have to follow: the tree is re-read below
+                # writes: the comparisons all precede the modification (C14), and the transaction is aborted before the
+                # next call, so the stored tree -- the one the model is given -- is what every call starts from
+                if present:
                     calls.append(("set-existing", 1, False, (lambda key: t.add(key)) if setlike else (lambda key: t.__setitem__(key, k))))
+                    calls.append(("del-existing", 1, True, (lambda key: t.remove(key)) if setlike else (lambda key: t.__delitem__(key))))
                 else:
                     calls.append(("del-missing", 1, True, (lambda key: t.remove(key)) if setlike else (lambda key: t.__delitem__(key))))
+                    calls.append(("set-new", 1, False, (lambda key: t.add(key)) if setlike else (lambda key: t.__setitem__(key, k))))
                 for name, d, sepcheck, fn_ in calls:
                     total = None
                     for failing in [None] + list(range(1, 8)):
